@@ -25,11 +25,24 @@ use crate::framework::*;
 pub struct SimTime {
     /// wall clock in ns relative to the Unix epoch (may be negative)
     pub wall_ns: Arc<AtomicI64>,
+    /// this source's monotonic clock runs at `rate` x the simulator's clock and its wall clock is
+    /// shifted by `wall_off_ns`, so that which source an object resolved is visible in what it reports
+    pub rate: u64,
+    pub wall_off_ns: i64,
 }
+
+impl SimTime {
+    pub fn plain(wall_ns: Arc<AtomicI64>) -> SimTime {
+        SimTime { wall_ns, rate: 1, wall_off_ns: 0 }
+    }
+}
+
+/// (rate, wall offset) of the time sources a run can install
+pub const SOURCES: [(u64, i64); 4] = [(1, 0), (2, 1_000_000_000_000), (3, -500_000_000_000), (5, 7_777_000_000_000)];
 
 impl Time for SimTime {
     fn now(&self) -> SystemTime {
-        let w = self.wall_ns.load(Ordering::SeqCst);
+        let w = self.wall_ns.load(Ordering::SeqCst) + self.wall_off_ns;
         if w >= 0 {
             SystemTime::UNIX_EPOCH + Duration::from_nanos(w as u64)
         } else {
@@ -37,19 +50,23 @@ impl Time for SimTime {
         }
     }
     fn instant(&self) -> std::time::Instant {
-        detsim::time::Instant::peek().std()
+        if self.rate == 1 {
+            detsim::time::Instant::peek().std()
+        } else {
+            detsim::time::Instant::from_sim_ns(detsim::time::Instant::peek().sim_ns() * self.rate).std()
+        }
     }
 }
 
 #[derive(Clone, Debug)]
 pub enum TK {
     GuardStart { obj: u64, clock: u64 },
-    GuardEnd { obj: u64, how: String, clock: u64, returned: Option<u64> },
+    GuardEnd { obj: u64, how: String, clock: u64, returned: Option<u64>, rate: u64 },
     Clear,
     Check { reported: Option<u64>, in_phase: bool },
     TimerNew { obj: u64, clock: u64 },
-    TimerStop { obj: u64, clock: u64, returned: u64 },
-    TimerClose { obj: u64, clock: u64, reported: u64 },
+    TimerStop { obj: u64, clock: u64, returned: u64, rate: u64 },
+    TimerClose { obj: u64, clock: u64, reported: u64, rate: u64 },
     Stamp { kind: String, unit: String, wall_ns: i64, text: String },
     PhaseBegin,
     PhaseEnd,
@@ -87,7 +104,7 @@ impl ValueWriter for StrCapture<'_> {
     }
 }
 
-fn end_owned(log: &TLog, obj: u64, g: OwnedTimerGuard, how: &str) {
+fn end_owned(log: &TLog, obj: u64, g: OwnedTimerGuard, how: &str, rate: u64) {
     let clock = detsim::run_clock_ns();
     let returned = match how {
         "stop" => Some(g.stop().as_nanos() as u64),
@@ -104,24 +121,115 @@ fn end_owned(log: &TLog, obj: u64, g: OwnedTimerGuard, how: &str) {
             None
         }
     };
-    log.log(TK::GuardEnd { obj, how: how.to_string(), clock, returned });
+    log.log(TK::GuardEnd { obj, how: how.to_string(), clock, returned, rate });
 }
 
-fn time_main(plan: &Value, log: TLog) {
-    let wall = Arc::new(AtomicI64::new(1_700_000_000_000_000_000));
-    let ts = TimeSource::custom(SimTime { wall_ns: wall.clone() });
-    let _tl = set_time_source(ts.clone());
-    let mut sw = if jb(plan, "explicit_timesource", false) { Stopwatch::new_from_timesource(ts.clone()) } else { Stopwatch::new() };
-    let mut owned: BTreeMap<u64, OwnedTimerGuard> = BTreeMap::new();
-    let mut timers: BTreeMap<u64, Timer> = BTreeMap::new();
-    let mut next_obj = 1u64;
-    for op in ja(plan, "ops") {
+/// Everything one run's operation interpreter needs; `exec` is recursive for scoped time sources.
+struct Ctx {
+    log: TLog,
+    wall: Arc<AtomicI64>,
+    sources: Vec<TimeSource>,
+    /// model of the thread-local override stack (indices into `sources`)
+    tl_stack: Vec<usize>,
+    tl_guards: Vec<metrique_timesource::ThreadLocalTimeSourceGuard>,
+    rt: Option<tokio::runtime::Runtime>,
+    in_rt: bool,
+    rt_src: Option<usize>,
+    rt_guard: Option<metrique_timesource::tokio::RuntimeTimeSourceGuard>,
+    sw: Option<Stopwatch>,
+    sw_rate: u64,
+    explicit_sw: Option<usize>,
+    owned: BTreeMap<u64, OwnedTimerGuard>,
+    timers: BTreeMap<u64, (Timer, u64)>,
+    next_obj: u64,
+}
+
+impl Ctx {
+    /// the source the resolution order (thread-local, then runtime) selects right now
+    fn current(&self) -> Option<usize> {
+        self.tl_stack.last().copied().or(if self.in_rt { self.rt_src } else { None })
+    }
+
+    fn sw(&mut self) -> &mut Stopwatch {
+        if self.sw.is_none() {
+            let (sw, src) = match self.explicit_sw {
+                Some(i) => (Stopwatch::new_from_timesource(self.sources[i].clone()), i),
+                None => (Stopwatch::new(), self.current().unwrap_or(0)),
+            };
+            self.sw_rate = SOURCES[src].0;
+            self.sw = Some(sw);
+        }
+        self.sw.as_mut().unwrap()
+    }
+
+    fn end_owned(&self, obj: u64, g: OwnedTimerGuard, how: &str) {
+        end_owned(&self.log, obj, g, how, self.sw_rate);
+    }
+
+    fn exec(&mut self, ops: &[Value]) {
+        for op in ops {
+            self.exec_one(op);
+        }
+    }
+
+    fn exec_one(&mut self, op: &Value) {
+        let log = self.log.clone();
         match js(op, "op", "") {
             "adv" => detsim::advance_clock(ju(op, "ns", 0)),
+            "ts_push" => {
+                let i = ju(op, "src", 0) as usize % self.sources.len();
+                self.tl_guards.push(set_time_source(self.sources[i].clone()));
+                self.tl_stack.push(i);
+            }
+            "ts_pop" => {
+                if self.tl_guards.pop().is_some() {
+                    self.tl_stack.pop();
+                }
+            }
+            "scope" => {
+                let i = ju(op, "src", 0) as usize % self.sources.len();
+                let inner: Vec<Value> = ja(op, "ops").to_vec();
+                self.tl_stack.push(i);
+                let ts = self.sources[i].clone();
+                metrique_timesource::with_time_source(ts, || self.exec(&inner));
+                self.tl_stack.pop();
+            }
+            "rt_enter" => {
+                if self.rt.is_none() {
+                    self.rt = Some(tokio::runtime::Builder::new_current_thread().build().expect("runtime"));
+                }
+                self.in_rt = true;
+            }
+            "rt_exit" => self.in_rt = false,
+            "rt_set" => {
+                if let (Some(rt), None) = (&self.rt, &self.rt_guard) {
+                    let i = ju(op, "src", 3) as usize % self.sources.len();
+                    self.rt_guard = Some(metrique_timesource::tokio::set_time_source_for_runtime(rt.handle(), self.sources[i].clone()));
+                    self.rt_src = Some(i);
+                }
+            }
+            "rt_unset" => {
+                self.rt_guard = None;
+                self.rt_src = None;
+            }
+            _ => {
+                // everything else runs inside the runtime context if one is entered
+                let rt_handle = if self.in_rt { self.rt.as_ref().map(|r| r.handle().clone()) } else { None };
+                let _enter = rt_handle.as_ref().map(|h| h.enter());
+                self.exec_timed(op, &log);
+            }
+        }
+    }
+
+    fn exec_timed(&mut self, op: &Value, log: &TLog) {
+        match js(op, "op", "") {
+            "sw_create" => {
+                let _ = self.sw();
+            }
             "borrowed" => {
-                let obj = next_obj;
-                next_obj += 1;
-                let g = sw.start();
+                let obj = self.next_obj;
+                self.next_obj += 1;
+                let g = self.sw().start();
                 log.log(TK::GuardStart { obj, clock: detsim::run_clock_ns() });
                 detsim::advance_clock(ju(op, "ns", 0));
                 let clock = detsim::run_clock_ns();
@@ -141,18 +249,18 @@ fn time_main(plan: &Value, log: TLog) {
                         None
                     }
                 };
-                log.log(TK::GuardEnd { obj, how: how.to_string(), clock, returned });
+                log.log(TK::GuardEnd { obj, how: how.to_string(), clock, returned, rate: self.sw_rate });
             }
             "owned_start" => {
                 let obj = ju(op, "obj", 0);
-                let g = sw.start_owned();
+                let g = self.sw().start_owned();
                 log.log(TK::GuardStart { obj, clock: detsim::run_clock_ns() });
-                owned.insert(obj, g);
+                self.owned.insert(obj, g);
             }
             "owned_end" => {
                 let obj = ju(op, "obj", 0);
-                if let Some(g) = owned.remove(&obj) {
-                    end_owned(&log, obj, g, js(op, "end", "drop"));
+                if let Some(g) = self.owned.remove(&obj) {
+                    self.end_owned(obj, g, js(op, "end", "drop"));
                 }
             }
             "phase" => {
@@ -160,11 +268,12 @@ fn time_main(plan: &Value, log: TLog) {
                 // (additive endings only) while this thread runs a borrowed guard; then join
                 log.log(TK::PhaseBegin);
                 let mut hs = vec![];
+                let rate = self.sw_rate;
                 for th in ja(op, "threads") {
                     let mut mine: Vec<(u64, OwnedTimerGuard, String, u64)> = vec![];
                     for e in th.as_array().map(|a| a.as_slice()).unwrap_or(&[]) {
                         let obj = ju(e, "obj", 0);
-                        if let Some(g) = owned.remove(&obj) {
+                        if let Some(g) = self.owned.remove(&obj) {
                             mine.push((obj, g, js(e, "end", "drop").to_string(), ju(e, "adv", 0)));
                         }
                     }
@@ -173,20 +282,20 @@ fn time_main(plan: &Value, log: TLog) {
                         for (obj, g, how, adv) in mine {
                             detsim::yield_point();
                             detsim::advance_clock(adv);
-                            end_owned(&l, obj, g, &how);
+                            end_owned(&l, obj, g, &how, rate);
                         }
                     }));
                 }
                 if jb(op, "main_borrowed", false) {
-                    let obj = next_obj;
-                    next_obj += 1;
-                    let g = sw.start();
+                    let obj = self.next_obj;
+                    self.next_obj += 1;
+                    let g = self.sw().start();
                     log.log(TK::GuardStart { obj, clock: detsim::run_clock_ns() });
                     detsim::yield_point();
                     detsim::advance_clock(ju(op, "ns", 0));
                     let clock = detsim::run_clock_ns();
                     drop(g);
-                    log.log(TK::GuardEnd { obj, how: "drop".into(), clock, returned: None });
+                    log.log(TK::GuardEnd { obj, how: "drop".into(), clock, returned: None, rate });
                 }
                 for h in hs {
                     let _ = h.join();
@@ -194,50 +303,68 @@ fn time_main(plan: &Value, log: TLog) {
                 log.log(TK::PhaseEnd);
             }
             "clear" => {
-                sw.clear();
+                self.sw().clear();
                 log.log(TK::Clear);
             }
             "check" => {
-                let rep = (&sw).close().map(|d| d.as_nanos() as u64);
+                let rep = (&*self.sw()).close().map(|d| d.as_nanos() as u64);
                 log.log(TK::Check { reported: rep, in_phase: false });
             }
             "timer_new" => {
                 let obj = ju(op, "obj", 0);
-                let t = if jb(op, "explicit", false) { Timer::start_now_with_timesource(ts.clone()) } else { Timer::start_now() };
+                let (t, src) = match op.get("explicit_src").and_then(|x| x.as_u64()) {
+                    Some(i) => {
+                        let i = i as usize % self.sources.len();
+                        (Timer::start_now_with_timesource(self.sources[i].clone()), i)
+                    }
+                    None => (Timer::start_now(), self.current().unwrap_or(0)),
+                };
                 log.log(TK::TimerNew { obj, clock: detsim::run_clock_ns() });
-                timers.insert(obj, t);
+                self.timers.insert(obj, (t, SOURCES[src].0));
             }
             "timer_stop" => {
                 let obj = ju(op, "obj", 0);
-                if let Some(t) = timers.get_mut(&obj) {
+                if let Some((t, rate)) = self.timers.get_mut(&obj) {
                     let clock = detsim::run_clock_ns();
                     let r = t.stop().as_nanos() as u64;
-                    log.log(TK::TimerStop { obj, clock, returned: r });
+                    log.log(TK::TimerStop { obj, clock, returned: r, rate: *rate });
                 }
             }
             "timer_close" => {
                 let obj = ju(op, "obj", 0);
-                if let Some(t) = timers.remove(&obj) {
+                if let Some((t, rate)) = self.timers.remove(&obj) {
                     let clock = detsim::run_clock_ns();
                     let r = if jb(op, "by_ref", false) { (&t).close() } else { t.close() };
-                    log.log(TK::TimerClose { obj, clock, reported: r.as_nanos() as u64 });
+                    log.log(TK::TimerClose { obj, clock, reported: r.as_nanos() as u64, rate });
                 }
             }
-            "wall" => wall.store(ji(op, "ns", 0), Ordering::SeqCst),
+            "wall" => self.wall.store(ji(op, "ns", 0), Ordering::SeqCst),
             "stamp" => {
                 let on_close = jb(op, "on_close", false);
                 let unit = js(op, "unit", "ms").to_string();
                 let value: TimestampValue;
                 let expect_wall;
+                // the source is resolved when the timestamp object is created
+                let explicit = op.get("explicit_src").and_then(|x| x.as_u64()).map(|i| i as usize % self.sources.len());
+                let src = if on_close { self.current().unwrap_or(0) } else { explicit.or(self.current()).unwrap_or(0) };
+                let off = SOURCES[src].1;
                 if on_close {
                     let t = TimestampOnClose::default();
-                    wall.store(ji(op, "then_wall_ns", 0), Ordering::SeqCst);
-                    expect_wall = wall.load(Ordering::SeqCst);
+                    self.wall.store(ji(op, "then_wall_ns", 0), Ordering::SeqCst);
+                    // between creation and close the ambient source may change; it must not matter
+                    let inner: Vec<Value> = ja(op, "between").to_vec();
+                    self.exec(&inner);
+                    expect_wall = self.wall.load(Ordering::SeqCst) + off;
                     value = t.close();
                 } else {
-                    expect_wall = wall.load(Ordering::SeqCst);
-                    let t = if jb(op, "explicit", false) { Timestamp::new_from_time_source(ts.clone()) } else { Timestamp::now() };
-                    wall.store(ji(op, "then_wall_ns", 0), Ordering::SeqCst);
+                    expect_wall = self.wall.load(Ordering::SeqCst) + off;
+                    let t = match explicit {
+                        Some(i) => Timestamp::new_from_time_source(self.sources[i].clone()),
+                        None => Timestamp::now(),
+                    };
+                    self.wall.store(ji(op, "then_wall_ns", 0), Ordering::SeqCst);
+                    let inner: Vec<Value> = ja(op, "between").to_vec();
+                    self.exec(&inner);
                     value = t.close();
                 }
                 let mut text = String::new();
@@ -252,15 +379,51 @@ fn time_main(plan: &Value, log: TLog) {
             _ => {}
         }
     }
+}
+
+fn time_main(plan: &Value, log: TLog) {
+    let wall = Arc::new(AtomicI64::new(1_700_000_000_000_000_000));
+    let sources: Vec<TimeSource> = SOURCES.iter().map(|(rate, off)| TimeSource::custom(SimTime { wall_ns: wall.clone(), rate: *rate, wall_off_ns: *off })).collect();
+    let mut ctx = Ctx {
+        log: log.clone(),
+        wall,
+        sources,
+        tl_stack: vec![],
+        tl_guards: vec![],
+        rt: None,
+        in_rt: false,
+        rt_src: None,
+        rt_guard: None,
+        sw: None,
+        sw_rate: 1,
+        explicit_sw: if jb(plan, "explicit_timesource", false) { Some(ju(plan, "explicit_src", 0) as usize % SOURCES.len()) } else { None },
+        owned: BTreeMap::new(),
+        timers: BTreeMap::new(),
+        next_obj: 1,
+    };
+    // plans from before the time-source operations existed install source 0 first
+    match plan.get("pre") {
+        Some(pre) => ctx.exec(pre.as_array().map(|a| a.as_slice()).unwrap_or(&[])),
+        None => ctx.exec(&[json!({"op":"ts_push","src":0})]),
+    }
+    if ctx.current().is_none() {
+        // (only shrunk plans get here) never fall through to the real system clock
+        ctx.exec(&[json!({"op":"ts_push","src":0})]);
+    }
+    ctx.exec(&[json!({"op":"sw_create"})]);
+    ctx.exec(ja(plan, "ops"));
     // finish whatever is still alive (plain drops), then a final check
-    let rest: Vec<u64> = owned.keys().copied().collect();
+    let rest: Vec<u64> = ctx.owned.keys().copied().collect();
     for obj in rest {
-        if let Some(g) = owned.remove(&obj) {
-            end_owned(&log, obj, g, "drop");
+        if let Some(g) = ctx.owned.remove(&obj) {
+            ctx.end_owned(obj, g, "drop");
         }
     }
-    let rep = (&sw).close().map(|d| d.as_nanos() as u64);
-    log.log(TK::Check { reported: rep, in_phase: false });
+    ctx.exec(&[json!({"op":"check"})]);
+    // release in a defined order: thread-local guards newest first, runtime guard, runtime
+    while ctx.tl_guards.pop().is_some() {}
+    ctx.rt_guard = None;
+    ctx.rt = None;
 }
 
 pub fn check_c18(h: &[TEv]) -> Option<Violation> {
@@ -273,8 +436,8 @@ pub fn check_c18(h: &[TEv]) -> Option<Violation> {
             TK::GuardStart { obj, clock } => {
                 starts.insert(*obj, *clock);
             }
-            TK::GuardEnd { obj, how, clock, returned } => {
-                let span = clock.saturating_sub(starts.get(obj).copied().unwrap_or(*clock));
+            TK::GuardEnd { obj, how, clock, returned, rate } => {
+                let span = clock.saturating_sub(starts.get(obj).copied().unwrap_or(*clock)) * rate;
                 match how.as_str() {
                     "discard" => {}
                     "overwrite" => total = Some(span),
@@ -300,18 +463,18 @@ pub fn check_c18(h: &[TEv]) -> Option<Violation> {
             TK::TimerNew { obj, clock } => {
                 timers.insert(*obj, (*clock, None));
             }
-            TK::TimerStop { obj, clock, returned } => {
+            TK::TimerStop { obj, clock, returned, rate } => {
                 if let Some((c0, first)) = timers.get_mut(obj) {
-                    let want = first.unwrap_or(clock - *c0);
+                    let want = first.unwrap_or((clock - *c0) * rate);
                     *first = Some(want);
                     if *returned != want {
                         return Some(Violation::new("timer_stop_wrong", format!("timer {obj}: stop() returned {returned} ns, creation to first stop is {want} ns")));
                     }
                 }
             }
-            TK::TimerClose { obj, clock, reported } => {
+            TK::TimerClose { obj, clock, reported, rate } => {
                 if let Some((c0, first)) = timers.get(obj) {
-                    let want = first.unwrap_or(clock - *c0);
+                    let want = first.unwrap_or((clock - *c0) * rate);
                     if *reported != want {
                         return Some(Violation::new("timer_close_wrong", format!("timer {obj}: closed value {reported} ns, expected {want} ns (creation to first stop, or to close)")));
                     }
@@ -333,82 +496,222 @@ pub fn check_c18(h: &[TEv]) -> Option<Violation> {
     None
 }
 
-pub fn gen_c18(rng: &mut Rng, tier: Tier) -> Value {
-    let n = 1 + rng.below(if tier == Tier::Thorough { 40 } else { 24 });
-    let mut ops: Vec<Value> = vec![];
-    let mut live: Vec<u64> = vec![];
-    let mut next = 100u64;
-    let mut live_timers: Vec<u64> = vec![];
-    let adv = |rng: &mut Rng| -> u64 { *rng.pick(&[0u64, 1, 999, 1_000_000, 123_456_789, 3_600_000_000_000]) + rng.below(1000) };
-    for _ in 0..n {
-        match rng.below(14) {
-            0 | 1 | 2 => ops.push(json!({"op":"borrowed","ns":adv(rng),"end": *rng.pick(&["stop", "drop", "drop", "discard", "overwrite"])})),
+/// Generator-side model of the time-source resolution state (so that a defined, injected source
+/// is always in effect when an operation reads the ambient source).
+#[derive(Clone, Default)]
+struct TsModel {
+    tl: Vec<u64>,
+    in_rt: bool,
+    rt_src: Option<u64>,
+}
+
+impl TsModel {
+    fn defined_without_top(&self) -> bool {
+        self.tl.len() > 1 || (self.in_rt && self.rt_src.is_some())
+    }
+}
+
+struct Gen18 {
+    live: Vec<u64>,
+    live_timers: Vec<u64>,
+    next: u64,
+    ts: TsModel,
+}
+
+fn adv18(rng: &mut Rng) -> u64 {
+    *rng.pick(&[0u64, 1, 999, 1_000_000, 123_456_789, 3_600_000_000_000]) + rng.below(1000)
+}
+
+fn wall18(rng: &mut Rng) -> i64 {
+    match rng.below(6) {
+        0 => 0,
+        1 => -(rng.below(10_000_000_000) as i64),
+        2 => rng.below(1_000_000) as i64,
+        3 => 4_102_444_800_000_000_000 + rng.below(1_000_000_000) as i64,
+        _ => 1_700_000_000_000_000_000 + rng.below(1_000_000_000_000) as i64,
+    }
+}
+
+impl Gen18 {
+    /// a balanced change of the ambient time source (no net effect)
+    fn between(&mut self, rng: &mut Rng) -> Vec<Value> {
+        match rng.below(4) {
+            0 => vec![json!({"op":"ts_push","src":rng.below(4)}), json!({"op":"adv","ns":adv18(rng)}), json!({"op":"ts_pop"})],
+            1 => vec![json!({"op":"scope","src":rng.below(4),"ops":[json!({"op":"adv","ns":adv18(rng)})]})],
+            _ => vec![],
+        }
+    }
+
+    /// operations that read the ambient time source or the stopwatch
+    fn timed(&mut self, rng: &mut Rng, ops: &mut Vec<Value>, allow_phase: bool) {
+        match rng.below(12) {
+            0 | 1 | 2 => ops.push(json!({"op":"borrowed","ns":adv18(rng),"end": *rng.pick(&["stop", "drop", "drop", "discard", "overwrite"])})),
             3 | 4 => {
-                next += 1;
-                live.push(next);
-                ops.push(json!({"op":"owned_start","obj":next}));
+                self.next += 1;
+                self.live.push(self.next);
+                ops.push(json!({"op":"owned_start","obj":self.next}));
             }
             5 => {
-                if !live.is_empty() {
-                    let i = rng.usize_below(live.len());
-                    let obj = live.remove(i);
+                if !self.live.is_empty() {
+                    let i = rng.usize_below(self.live.len());
+                    let obj = self.live.remove(i);
                     ops.push(json!({"op":"owned_end","obj":obj,"end": *rng.pick(&["stop", "drop", "discard", "overwrite"])}));
                 }
             }
             6 => {
-                if live.len() >= 1 {
+                if allow_phase && !self.live.is_empty() {
                     // concurrent phase: up to 3 threads finish owned guards additively
                     let nt = 1 + rng.below(3);
                     let mut threads: Vec<Vec<Value>> = (0..nt).map(|_| vec![]).collect();
-                    let take = 1 + rng.usize_below(live.len());
+                    let take = 1 + rng.usize_below(self.live.len());
                     for _ in 0..take {
-                        let i = rng.usize_below(live.len());
-                        let obj = live.remove(i);
-                        threads[rng.usize_below(nt as usize)].push(json!({"obj":obj,"end": *rng.pick(&["stop", "drop", "drop", "discard"]),"adv":adv(rng)}));
+                        let i = rng.usize_below(self.live.len());
+                        let obj = self.live.remove(i);
+                        threads[rng.usize_below(nt as usize)].push(json!({"obj":obj,"end": *rng.pick(&["stop", "drop", "drop", "discard"]),"adv":adv18(rng)}));
                     }
-                    ops.push(json!({"op":"phase","threads":threads,"main_borrowed":rng.chance(0.5),"ns":adv(rng)}));
+                    ops.push(json!({"op":"phase","threads":threads,"main_borrowed":rng.chance(0.5),"ns":adv18(rng)}));
                 }
             }
             7 => ops.push(json!({"op":"clear"})),
             8 => {
-                next += 1;
-                live_timers.push(next);
-                ops.push(json!({"op":"timer_new","obj":next,"explicit":rng.chance(0.5)}));
+                self.next += 1;
+                self.live_timers.push(self.next);
+                let mut o = json!({"op":"timer_new","obj":self.next});
+                if rng.chance(0.3) {
+                    o["explicit_src"] = json!(rng.below(4));
+                }
+                ops.push(o);
             }
             9 => {
-                if !live_timers.is_empty() {
-                    let obj = *rng.pick(&live_timers);
+                if !self.live_timers.is_empty() {
+                    let obj = *rng.pick(&self.live_timers);
                     ops.push(json!({"op":"timer_stop","obj":obj}));
                 }
             }
             10 => {
-                if !live_timers.is_empty() {
-                    let i = rng.usize_below(live_timers.len());
-                    let obj = live_timers.remove(i);
+                if !self.live_timers.is_empty() {
+                    let i = rng.usize_below(self.live_timers.len());
+                    let obj = self.live_timers.remove(i);
                     ops.push(json!({"op":"timer_close","obj":obj,"by_ref":rng.chance(0.5)}));
                 }
             }
-            11 => {
-                let w = |rng: &mut Rng| -> i64 {
-                    match rng.below(6) {
-                        0 => 0,
-                        1 => -(rng.below(10_000_000_000) as i64),
-                        2 => rng.below(1_000_000) as i64,
-                        3 => 4_102_444_800_000_000_000 + rng.below(1_000_000_000) as i64,
-                        _ => 1_700_000_000_000_000_000 + rng.below(1_000_000_000_000) as i64,
-                    }
-                };
-                ops.push(json!({"op":"wall","ns":w(rng)}));
-                ops.push(json!({"op":"stamp","on_close":rng.chance(0.5),"explicit":rng.chance(0.5),"unit": *rng.pick(&["s", "ms", "us", "default"]),"then_wall_ns":w(rng)}));
+            _ => {
+                ops.push(json!({"op":"wall","ns":wall18(rng)}));
+                let on_close = rng.chance(0.5);
+                let mut o = json!({"op":"stamp","on_close":on_close,"unit": *rng.pick(&["s", "ms", "us", "default"]),"then_wall_ns":wall18(rng),"between":self.between(rng)});
+                if !on_close && rng.chance(0.3) {
+                    o["explicit_src"] = json!(rng.below(4));
+                }
+                ops.push(o);
             }
-            _ => ops.push(json!({"op":"adv","ns":adv(rng)})),
+        }
+    }
+
+    /// operations that change which time source is ambient
+    fn ts_op(&mut self, rng: &mut Rng, ops: &mut Vec<Value>) {
+        match rng.below(7) {
+            0 | 1 => {
+                let src = rng.below(4);
+                self.ts.tl.push(src);
+                ops.push(json!({"op":"ts_push","src":src}));
+            }
+            2 => {
+                if !self.ts.tl.is_empty() && self.ts.defined_without_top() {
+                    self.ts.tl.pop();
+                    ops.push(json!({"op":"ts_pop"}));
+                }
+            }
+            3 => {
+                // a scoped override with a few operations inside
+                let src = rng.below(4);
+                self.ts.tl.push(src);
+                let mut inner = vec![];
+                for _ in 0..1 + rng.below(3) {
+                    if rng.chance(0.3) {
+                        inner.push(json!({"op":"adv","ns":adv18(rng)}));
+                    }
+                    self.timed(rng, &mut inner, false);
+                }
+                self.ts.tl.pop();
+                ops.push(json!({"op":"scope","src":src,"ops":inner}));
+            }
+            4 => {
+                if !self.ts.in_rt {
+                    self.ts.in_rt = true;
+                    ops.push(json!({"op":"rt_enter"}));
+                } else if !self.ts.tl.is_empty() {
+                    self.ts.in_rt = false;
+                    ops.push(json!({"op":"rt_exit"}));
+                }
+            }
+            5 => {
+                if self.ts.in_rt && self.ts.rt_src.is_none() {
+                    let src = rng.below(4);
+                    self.ts.rt_src = Some(src);
+                    ops.push(json!({"op":"rt_set","src":src}));
+                }
+            }
+            _ => {
+                if self.ts.rt_src.is_some() && !self.ts.tl.is_empty() {
+                    self.ts.rt_src = None;
+                    ops.push(json!({"op":"rt_unset"}));
+                }
+            }
+        }
+    }
+}
+
+pub fn gen_c18(rng: &mut Rng, tier: Tier) -> Value {
+    let n = 1 + rng.below(if tier == Tier::Thorough { 40 } else { 24 });
+    let mut g = Gen18 { live: vec![], live_timers: vec![], next: 100, ts: TsModel::default() };
+    // the ambient source when the stopwatch is created
+    let mut pre: Vec<Value> = vec![];
+    match rng.below(10) {
+        0 | 1 => {
+            let s = rng.below(4);
+            pre.push(json!({"op":"rt_enter"}));
+            pre.push(json!({"op":"rt_set","src":s}));
+            g.ts.in_rt = true;
+            g.ts.rt_src = Some(s);
+        }
+        2 => {
+            let (s, t) = (rng.below(4), rng.below(4));
+            pre.push(json!({"op":"rt_enter"}));
+            pre.push(json!({"op":"rt_set","src":s}));
+            pre.push(json!({"op":"ts_push","src":t}));
+            g.ts.in_rt = true;
+            g.ts.rt_src = Some(s);
+            g.ts.tl.push(t);
+        }
+        3 => {
+            let (s, t) = (rng.below(4), rng.below(4));
+            pre.push(json!({"op":"ts_push","src":s}));
+            pre.push(json!({"op":"ts_push","src":t}));
+            g.ts.tl.push(s);
+            g.ts.tl.push(t);
+        }
+        _ => {
+            let s = if rng.chance(0.5) { 0 } else { rng.below(4) };
+            pre.push(json!({"op":"ts_push","src":s}));
+            g.ts.tl.push(s);
+        }
+    }
+    let ts_rate = *rng.pick(&[0.0, 0.0, 0.15, 0.3]);
+    let mut ops: Vec<Value> = vec![];
+    for _ in 0..n {
+        if rng.chance(ts_rate) {
+            g.ts_op(rng, &mut ops);
+        } else if rng.chance(0.15) {
+            ops.push(json!({"op":"adv","ns":adv18(rng)}));
+        } else {
+            g.timed(rng, &mut ops, true);
         }
         if rng.chance(0.6) {
             ops.push(json!({"op":"check"}));
         }
     }
     let sched = gen_sched(rng, &SchedOpts { est_choices: 80, threads: 3, jump_max_ns: 0, stall_clock_max_ns: 0, max_steps: 30_000 });
-    json!({"sched": sched, "ops": ops, "explicit_timesource": rng.chance(0.5)})
+    json!({"sched": sched, "pre": pre, "ops": ops, "explicit_timesource": rng.chance(0.4), "explicit_src": rng.below(4)})
 }
 
 pub struct Timers;
@@ -460,6 +763,17 @@ impl Scenario for Timers {
                 _ => {}
             }
         }
+        let ptxt = plan.get("ops").map(|o| o.to_string()).unwrap_or_default();
+        if ptxt.contains("\"ts_pop\"") {
+            r.probe("nested_thread_local_source_ended", 1);
+        }
+        if ptxt.contains("\"scope\"") {
+            r.probe("scoped_source", 1);
+        }
+        let pre = plan.get("pre").map(|o| o.to_string()).unwrap_or_default();
+        if pre.contains("rt_set") && !pre.contains("ts_push") {
+            r.probe("runtime_level_source_in_effect", 1);
+        }
         r.states = st.into_iter().collect();
         r.violation = check_c18(&h);
         r.sample = Some(json!({"ops": plan.get("ops"), "history": h.iter().take(50).map(|e| format!("#{} t{} {:?}", e.seq, e.tid, e.k)).collect::<Vec<_>>()}));
@@ -479,7 +793,7 @@ impl Scenario for Timers {
         r
     }
     fn probes(&self) -> Vec<&'static str> {
-        vec!["guard_stop", "guard_drop", "guard_discard", "guard_overwrite", "concurrent_owned_phase", "timestamps", "wall_clock_before_epoch"]
+        vec!["guard_stop", "guard_drop", "guard_discard", "guard_overwrite", "concurrent_owned_phase", "timestamps", "wall_clock_before_epoch", "nested_thread_local_source_ended", "runtime_level_source_in_effect", "scoped_source"]
     }
     fn components(&self) -> Value {
         json!({"real": ["Stopwatch / TimerGuard / OwnedTimerGuard / MaybeGuardedDuration / SharedDuration", "Timer", "Timestamp / TimestampOnClose / TimestampValue / EpochSeconds / EpochMillis / EpochMicros", "metrique_timesource::{TimeSource::custom, set_time_source, time_source}"], "simulated_seams": ["Time (monotonic = simulator clock, wall = harness-controlled, steps backwards allowed)", "Arc/Mutex of the shared duration"], "harness": ["operation histories, 1-3 threads finishing owned guards"], "stub": []})
